@@ -328,6 +328,9 @@ func (w *World) CheckOwnResults(oracle string, allowConnErr bool) {
 				continue
 			}
 			if pnc != "" {
+				if t.Cancelled {
+					continue // a cancelled caller may see its own cancellation instead
+				}
 				if !strings.Contains(err.Error(), "panic") {
 					w.E.Violate(oracle, "tok=%d: handler panicked (%s) but the caller's error does not mention it: %q", t.ID, pnc, err.Error())
 				}
